@@ -77,6 +77,7 @@ def main():
     ap.add_argument("--bystanders", action="store_true")
     ap.add_argument("--all", action="store_true")
     ap.add_argument("--filter", default="")
+    ap.add_argument("--ops", default="", help="comma-separated operator names to restrict to")
     ap.add_argument("--limit", type=int, default=0)
     ap.add_argument("--jobs", type=int, default=14)
     ap.add_argument("--out", default=str(VERIF / "out" / "selftest.json"))
@@ -103,6 +104,8 @@ def main():
                     continue
                 props = ALL_PROPS if kind == "bystander" else PROPS_OF_FILE.get(rel, ALL_PROPS)
                 for op, desc, k, how in mutants_of(fns[q]):
+                    if a.ops and op not in a.ops.split(","):
+                        continue
                     jobs.append((kind, (rel, q, op, desc, k, how, props)))
     if a.limit:
         import random
